@@ -38,7 +38,7 @@ def run_mutant(m, results):
             os.makedirs(os.path.join(scratch, "tmp"), exist_ok=True)
             env = dict(os.environ, TMPDIR=os.path.join(scratch, "tmp"), GWF_VERIF_REPO=scratch, VERIF_OUT=os.path.join(scratch, "out"), VERIF_FAILFAST="1", VERIF_DEADLINE=os.environ.get("MUT_DEADLINE", "75"))
             t0 = time.time()
-            p = subprocess.run([os.path.join(HERE, "vcheck"), prop, "--tier", "quick"], cwd=HERE, env=env, capture_output=True, text=True)
+            p = subprocess.run([os.path.join(HERE, "vcheck"), prop, "--tier", "quick"], cwd=HERE, env=env, capture_output=True, text=True, errors="replace")
             mechs = sorted({ln.split("mechanism=")[1].split(" ::")[0] for ln in p.stdout.splitlines() if "mechanism=" in ln})
             results.append({"id": m["id"], "prop": prop, "rc": p.returncode, "caught": p.returncode == 1 and "VIOLATION" in p.stdout, "mechs": mechs, "wall": round(time.time() - t0, 1), "first": p.stdout.splitlines()[0][:160] if p.stdout else p.stderr[-200:]})
     finally:
